@@ -14,6 +14,8 @@ from symx.values import zreal
 BOUNDS = c02.BOUNDS
 OUTSIDE = c02.OUTSIDE
 
+FLOAT_SELFCHECK = True
+
 
 def preload():
     c02.preload()
